@@ -103,7 +103,7 @@ STEM_WORDS = ["aFoo", "aBar", "Main", "x", "Qux_1", "aOcsCard", "zz", "Node", "t
               # ~a/~A .. ~d/~D: é/É ü/Ü ж/Ж ω/Ω, cased letters outside ASCII (the escape's letter case mirrors the letter's)
               "a~anit", "~Av~anement", "Gr~b~Be", "~c~C~c", "~d~Dmega", "se~Cal"]
 OTHER_EXT = [".GOD", ".God", ".txt", "", ".god.bak", ".", "god", ".gold", ".go", ".god~"]
-DIR_WORDS = ["d", "Sub", "pkg", "WAM", "x.god", "deep", "e_1", "Bundle", "My~1Bundle", "B~4ndel", "c~3", "q~2", "B~bndel", "~Ctage"]
+DIR_WORDS = ["d", "Sub", "pkg", "WAM", "x.god", "deep", "e_1", "Bundle", "My~1Bundle", "B~4ndel", "c~3", "q~2", "B~bndel", "~Ctage", ".archive", ".git", ".d"]
 
 
 class Gen:
